@@ -1,0 +1,22 @@
+//go:build verif
+
+package pppoe
+
+// Add-only verification hook for property C01 (no address is held by two
+// subscribers). Compiled only with `-tags verif`; returns copies, changes
+// nothing.
+
+// VerifState returns a copy of the pool's allocated map (session id ->
+// address) and of its free list (in allocation order).
+func (p *IPPool) VerifState() (allocated map[string]string, available []string) {
+	p.mu.Lock()
+	defer p.mu.Unlock()
+	allocated = make(map[string]string, len(p.allocated))
+	for s, ip := range p.allocated {
+		allocated[s] = ip.String()
+	}
+	for _, ip := range p.available {
+		available = append(available, ip.String())
+	}
+	return allocated, available
+}
